@@ -33,7 +33,8 @@ ASSUMPTIONS = [
     "to_dict() of the loaded certificate",
 ]
 V1N = ["device", "attestation", "ui", "signer"]
-V2N = ["quote", "attestation", "quoting_enclave", "platform_ca", "a", "b", "c", "sgx_root"]
+V2N = ["quote", "attestation", "quoting_enclave", "platform_ca", "a", "b", "c", "sgx_root",
+       "d", "e", "f", "g", "h"]
 HEX = ["aa", "bb", "cc", "04" + "11" * 64, "3006020101020101", "00" * 432, "00" * 384,
        "ff" + "04" + "22" * 64]
 B64 = ["AAAA", "MIIB", "QUJD"]
@@ -112,8 +113,8 @@ def cases(draw, tier):
     if v == 1:
         names = list(draw(st.permutations(V1N)))[:n]
     else:
-        names = [draw(st.sampled_from(pool)) for _ in range(n)]
-        names = list(dict.fromkeys(names))
+        names = list(draw(st.permutations(pool)))[:n] if draw(st.booleans()) else \
+            list(dict.fromkeys(draw(st.sampled_from(pool)) for _ in range(n)))
     els = []
     for i, nm in enumerate(names):
         sb = rootname if i == 0 or draw(st.integers(0, 2)) == 0 else \
